@@ -167,6 +167,13 @@ class Index(PyModel):
             out.append(rat(hit[0]) if hit else rat(-1))
         return SArr((len(out),), out, dtype="int")
 
+    def equals(self, other):
+        if not isinstance(other, Index):
+            return False
+        if len(self.tuples) != len(other.tuples) or self.nlevels != other.nlevels:
+            return False
+        return all(len(a) == len(b) and all(cell_eq(x, y) for x, y in zip(a, b)) for a, b in zip(self.tuples, other.tuples))
+
     def get_loc(self, label):
         labels = [t[0] for t in self.tuples]
         hit = [i for i, l in enumerate(labels) if cell_eq(l, label)]
@@ -800,13 +807,47 @@ def setdiff1d(a, b, **k):
     return ObjVec(sorted_labels(out))
 
 
+def setxor1d(a, b, assume_unique=False):
+    """numpy.setxor1d with NumPy's coercion of its operands (checked against numpy 2.5 / pandas 3.0): an array taken from a frame
+    column of strings is an OBJECT array, a python list of strings a unicode array, a list mixing numbers and strings a unicode
+    array of their texts; concatenating object with anything stays object (and sorting strings with numbers raises TypeError),
+    unicode with numbers turns the numbers into text"""
+    def operand(x):
+        from_list = isinstance(x, (list, tuple))
+        xs = list(x.labels) if isinstance(x, Columns) else list(x.cells) if isinstance(x, (ObjVec, Series)) else list(x.data) if isinstance(x, SArr) else list(x)
+        xs = [norm_num(v) for v in xs]
+        has_str = any(isinstance(v, str) for v in xs)
+        if from_list:
+            if has_str:
+                return "U", [v if isinstance(v, str) else str(v) for v in xs]
+            return "num", xs
+        return ("O" if has_str else "num"), xs
+
+    def norm_num(v):
+        if isinstance(v, Rat) and v.is_const():
+            c = v.const()
+            return int(c) if c.denominator == 1 else float(c)
+        return v
+    (ka, xa), (kb, xb) = operand(a), operand(b)
+    xa, xb = unique(xa), unique(xb)
+    if "O" in (ka, kb):
+        allv = xa + xb
+        if any(isinstance(v, str) for v in allv) and any(not isinstance(v, str) for v in allv):
+            raise PyRaise("TypeError", None, "'<' not supported between instances of 'int' and 'str'")
+    elif "U" in (ka, kb):
+        xa = [v if isinstance(v, str) else str(v) for v in xa]
+        xb = [v if isinstance(v, str) else str(v) for v in xb]
+    out = [v for v in xa if not any(cell_eq(v, w) for w in xb)] + [w for w in xb if not any(cell_eq(v, w) for v in xa)]
+    return ObjVec(sorted_labels(out))
+
+
 def install(it):
     """register the model with an interpreter"""
     global CALL
     CALL = lambda f, *a: it.call(f, list(a), {})
     mi, dft = MultiIndexType(), DataFrameType()
     it.hooks.update({
-        "pandas.MultiIndex": mi, "pandas.DataFrame": dft, "pandas.concat": concat, "numpy.setdiff1d": setdiff1d,
+        "pandas.MultiIndex": mi, "pandas.DataFrame": dft, "pandas.concat": concat, "numpy.setdiff1d": setdiff1d, "numpy.setxor1d": setxor1d,
         "pandas.Series": lambda data=None, **k: Series(list(data)),
         "pandas.Index": lambda data, name=None, **k: Index([(x,) for x in (data.data if isinstance(data, SArr) else data)], [name]),
         "pandas.isna": lambda x: is_nan(x), "pandas.notna": lambda x: not is_nan(x),
